@@ -13,6 +13,10 @@ from mc import impl, lattice, runner
 from mc.checks.c01 import metaschema_valid
 from mc.gen import atoms as A
 
+import warnings
+
+warnings.filterwarnings("ignore", category=FutureWarning)
+
 PROP = "C10"
 LEVEL = "model_checking"
 RULE = (
@@ -88,7 +92,7 @@ def extreme_atoms():
             out.append({kw: n})
     for f in ("date-time", "uuid", "UUID", "Date-Time", "DATE-TIME", "uuid ", ""):
         out.append({"format": f})
-    for p in ("^a*$", "\\d+", "[\\x00-\\x1f]", "^(?:a|b)+$", "\\s", ".", "$^", "\\W"):
+    for p in ("^a*$", "\\d+", "[\\x00-\\x1f]", "^(?:a|b)+$", "\\s", ".", "$^", "\\W", "^[A-Za-z_$][A-Za-z0-9_$]*$", "[$^]", "[\\\\$]", "a$|b", "(?i)^A", "(?P<n>a)(?P=n)", "(?=a)a", "a{1,2}$", "\\$", "\\\\$", "[]$]", "^\\^", "\\Z", "\\bword\\b", "[[:alpha:]]", "(?:$)"):
         out.append({"pattern": p})
     out.append({"uniqueItems": True})
     for c in (deep_list(50), deep_dict(50), 1e308, 10 ** 400, "\ud800", [1, [1], {"a": 1}], {"__dict__": 1}):
@@ -103,6 +107,11 @@ def extreme_atoms():
     out.append({"additionalProperties": {"multipleOf": 0.1}})
     out.append({"dependencies": {"__dict__": ["a"], "a": {"required": ["__dict__"]}}})
     out.append({"required": ["__dict__", "_dict", ""]})
+    # several patterns, each a valid expression on its own, next to an undeclared required name
+    for pats in (["^a", "(?i)^b"], ["(?P<n>a)", "(?P<n>b)"], ["a|", "c$"], ["(?i)x", "(?s)y", "(?m)z"], ["^(a)\\1", "^(b)\\1"], ["a(?#comment)", "(?x) b "]):
+        for ap in (False, {"type": "integer"}, True):
+            out.append({"required": ["zz", "b"], "additionalProperties": ap, "patternProperties": {p: {} for p in pats}})
+            out.append({"required": ["zz"], "properties": {"b": {}}, "additionalProperties": ap, "patternProperties": {p: {"type": "integer"} for p in reversed(pats)}})
     out.append({"default": 10 ** 400})
     # integers beyond the interpreter's int -> decimal string conversion limit (4300 digits)
     big = 10 ** 5000
@@ -113,11 +122,14 @@ def extreme_atoms():
 TYPES = [None, "number", "integer", "string", "array", "object", ["number", "string"], ["object", "array", "null"]]
 
 
+TYPES_QUICK = [None, "integer", "string", "object", ["object", "array", "null"]]
+
+
 def extreme_schemas(tier):
     atoms = extreme_atoms()
     out = []
     for a in atoms:
-        for t in TYPES:
+        for t in (TYPES if tier == "thorough" else TYPES_QUICK):
             s = dict(a)
             if t is not None:
                 s["type"] = t
